@@ -65,7 +65,9 @@ def gen_atomtype(rng, rich=True):
 
 def gen_cnum(rng):
     sign = rng.choice(['-', '+', '- ']) if rng.random() < 0.08 else ''
-    return rng.choice(CMP) + sign + str(rng.randrange(0, 10))
+    # edge values (0, 1) are drawn more often than the other digits
+    digit = rng.choice([0, 0, 0, 1, 1, 2, 3, 4, 5, 6, 7, 8, 9])
+    return rng.choice(CMP) + sign + str(digit)
 
 
 def gen_constraint(rng):
